@@ -59,7 +59,14 @@ def insert_noise(draw, root, n_min=1, n_max=6):
     foreign = False
     n = draw(st.integers(n_min, n_max))
     for _ in range(n):
-        kind = draw(st.sampled_from(NOISE_KINDS + ["xml-decl"]))
+        kind = draw(st.sampled_from(NOISE_KINDS + ["xml-decl", "outer"]))
+        if kind == "outer":
+            # comments and processing instructions are also legal outside the document element
+            new = node("#comment", {"text": " outside "}) if draw(st.integers(0, 2)) == 0 else node("#pi", {"text": draw(st.sampled_from(["xml-stylesheet type='text/css' href='a.css'", "xpacket end='w'", "foo"]))})
+            where = draw(st.sampled_from(["_before", "_after"]))
+            root.setdefault(where, []).append(new)
+            labels.append(("outer-comment" if new["tag"] == "#comment" else "outer-pi") + ("-before" if where == "_before" else "-after") + "@document")
+            continue
         if kind == "xml-decl":
             prolog = draw(st.sampled_from(['<?xml version="1.0" encoding="UTF-8"?>', '<?xml version="1.0"?>\n', '<?xml version="1.0" encoding="utf-8" standalone="no"?>\n']))
             labels.append("xml-decl")
@@ -121,6 +128,11 @@ def insert_noise(draw, root, n_min=1, n_max=6):
                 new = node("thing", {"xmlns": "urn:example:thing", "fill": "red"}, c=[node("inner", {"width": "5"})] if kids else [])
         elif kind == "anon-symbol":
             new = node("symbol", {"viewBox": "0 0 10 10"}, c=[node("rect", {"width": "10", "height": "10", "fill": "lime"})])
+            if draw(st.integers(0, 2)) == 0:
+                # the symbol has no id, but editors that id every element leave ids on its content
+                u = len(labels)
+                new["c"] = [node("g", {"id": f"layer_n{u}"}, c=[node("path", {"id": f"path_n{u}", "d": "M1 1h5v5z", "fill": "lime"})])]
+                labels.append("anon-symbol-with-inner-ids@" + parent["tag"])
             if draw(st.booleans()):
                 # an id-less symbol nested in an id-less symbol, and one more later in the document
                 new["c"].append(node("symbol", c=[node("circle", {"r": "3"})]))
